@@ -48,6 +48,9 @@ func vfC05Errors() []vfC05Err {
 		{name: "panic-error", pv: errors.New("boom error"), want: []string{"RuntimeError"}, msgHas: "boom error"},
 		{name: "panic-int", pv: 42, want: []string{"RuntimeError"}, msgHas: "42"},
 		{name: "panic-struct", pv: struct{ A int }{7}, want: []string{"RuntimeError"}, msgHas: "7"},
+		// a panic is a RuntimeError whatever its value is — also when the value happens to be a typed error
+		{name: "panic-rpcerror", pv: &RpcError{Type: "ValueError", Message: "panicked rpc", Kind: "k9"}, want: []string{"RuntimeError"}, kind: "", msgHas: "panicked rpc"},
+		{name: "panic-framework-error", pv: &SessionLostError{Reason: "panicked lost"}, want: []string{"RuntimeError"}, kind: "", msgHas: "panicked lost"},
 	}
 }
 
